@@ -43,6 +43,10 @@ func checkC18(r *Run) {
 	checkEnforceGate(r, p, enforce, allow, retrieve)
 	checkAllowCover(r, p, allow)
 	checkResourceLifecycle(r, p)
+	r.Rule("C18.ERR", "no error returned by a call is discarded or left neither ruled out nor used on some path in the rbac packages: a policy or role lookup whose failure is swallowed decides access from an incomplete set", 1)
+	checkErrDrop(r, p, "C18.ERR", func(fn *FuncNode) bool {
+		return fn.InPkgs(rbacPkg) && !fn.InPkgs(rbacPkg+"/policy/migrations", rbacPkg+"/role/migrations", rbacPkg+"/migrations")
+	}, 40)
 }
 
 func checkEnforceGate(r *Run, p *Prog, enforce, allow, retrieve *FuncNode) {
